@@ -461,11 +461,10 @@ Hypothesis dr_good : forall lb s, G lb s -> G lb (dr s).
 
 Lemma good_handle_disconnect : forall lb s, G lb s -> G lb (handle_disconnect_state dr s).
 Proof.
-  intros lb s Hg. unfold handle_disconnect_state.
-  match goal with |- G lb (upd_chan (dr ?x) _ _ _ _) =>
-    assert (Hx : G lb x) by (eapply G_adm; [|exact Hg]; adm_go);
-    apply dr_good in Hx; eapply G_adm; [|exact Hx]; adm_go
-  end.
+  intros lb s Hg. unfold handle_disconnect_state. cbv zeta.
+  pose proof (dr_good lb s Hg) as H0.
+  destruct (is_connected (s_st s) && negb (is_connected (s_st (dr s)))); [exact H0|].
+  eapply G_adm; [|exact H0]. adm_go.
 Qed.
 
 Lemma good_set_state_with : forall lb s next, G lb s -> G lb (set_state_with dr s next).
